@@ -96,6 +96,8 @@ type relay struct {
 	// output stores stream output that is ready to be sent over HTTP/2. It provides a way to
 	// guarantee frame order without blocking on each frame being sent.
 	output chan queuedFrame
+	// done is closed when relayFrames returns. From then on nothing consumes `output`.
+	done chan struct{}
 
 	enableDebugLogs *bool
 
@@ -128,6 +130,7 @@ func newRelay(
 		connectionWindowSize: defaultInitialWindowSize,
 		outputBuffers:        make(map[uint32]*outputBuffer),
 		output:               make(chan queuedFrame, outputChannelSize),
+		done:                 make(chan struct{}),
 		enableDebugLogs:      enableDebugLogs,
 	}
 	ret.encoder = hpack.NewEncoder(&ret.reencoded)
@@ -156,6 +159,7 @@ func (r *relay) relayFrames(closing chan bool) error {
 	// method) is done.
 	readerDone := make(chan struct{})
 	defer func() { readerDone <- struct{}{} }()
+	defer close(r.done)
 
 	// Communicates errors occuring on the writer goroutine to the reader goroutine.
 	writerErr := make(chan error, 1)
@@ -484,6 +488,7 @@ func (r *relay) outputBuffer(streamID uint32) *outputBuffer {
 	if !ok {
 		w = &outputBuffer{
 			windowSize: int(r.initialWindowSize),
+			done:       r.done,
 		}
 		r.outputBuffers[streamID] = w
 	}
@@ -544,6 +549,8 @@ type outputBuffer struct {
 	// windowSize indicates how much data the receiver is ready to process.
 	windowSize int
 	queue      list.List // contains queuedFrame elements
+	// done is closed once the relay's writer has stopped consuming output.
+	done <-chan struct{}
 }
 
 // emitEligibleFrames emits frames that would fit under both the stream window size and the
@@ -556,7 +563,14 @@ func (w *outputBuffer) emitEligibleFrames(output chan queuedFrame, connectionWin
 		if f.flowControlSize() > *connectionWindowSize || f.flowControlSize() > w.windowSize {
 			break
 		}
-		output <- f
+		select {
+		case output <- f:
+		case <-w.done:
+			// The relay has ended and its writer is gone. The peer may still get here (a
+			// WINDOW_UPDATE it is processing); blocking on the full channel would park it
+			// forever with flowMu held.
+			return
+		}
 
 		*connectionWindowSize -= f.flowControlSize()
 		w.windowSize -= f.flowControlSize()
